@@ -587,8 +587,124 @@ def layer1_shard(spec):
     return st.to_dict()
 
 
+# ---------------------------------------------------------------------------------------------
+# idiom rows: function application, set-builder / "such that" / "given" bars with prefix operators, nested fences — judged by the row
+# invariants only (the reference parser does not model the function-name and vertical-bar heuristics)
+# ---------------------------------------------------------------------------------------------
+MATCH = {"(": ")", "[": "]", "{": "}", "⟨": "⟩", "⌈": "⌉", "⌊": "⌋"}
+
+
+def idiom(rng, d):
+    """returns (list of gen.N children, description)"""
+    mi, mn, mo = gen.mi, gen.mn, gen.mo
+    infix, prefix, postfix = usable_ops(d)
+    hi = [o for o in infix if infix[o] > 850] or ["∘"]
+    common = [o for o in "+-=<>×⋅÷±∈→≤∧∨∩∪⊂∘" if o in infix]
+    pre = [o for o in ["-", "+", "¬", "∃", "∀", "∑", "√", "∂", "±", "∇"] if o in prefix] or ["-"]
+    v = lambda: mi(rng.choice("abcxyzuvw"))
+    f = lambda: mi(rng.choice(["f", "g", "h", "sin", "cos", "log", "F", "G"]))
+    S = lambda: mi(rng.choice("STAB"))
+    arg = lambda: rng.choice([lambda: [v()], lambda: [v(), mo(","), v()], lambda: [v(), mo("+"), mn(str(rng.randint(1, 9)))], lambda: [v(), mo(","), v(), mo(","), mn("2")]])()
+    k = rng.random()
+    if k < 0.35:
+        op = rng.choice(hi + hi + common)
+        kids = [f(), mo(op), f(), mo("(")] + arg() + [mo(")")]
+        if rng.random() < 0.4:
+            kids += [mo(rng.choice(["=", "+"])), v()]
+        if rng.random() < 0.3:
+            kids = [v(), mo(rng.choice(["=", "+"]))] + kids
+        return kids, "function-application"
+    if k < 0.6:
+        p = rng.choice(pre)
+        kids = [mo("{"), v(), mo("|"), mo(p), v(), mo(rng.choice(["∈", "<", "=", "≤"])), rng.choice([S, v, lambda: mn("0")])(), mo("}")]
+        if rng.random() < 0.4:
+            kids = [S(), mo("=")] + kids
+        return kids, "set-builder-prefix"
+    if k < 0.75:
+        p = rng.choice(pre)
+        return [v(), mo("|"), mo(p), v()] + ([mo("+"), v()] if rng.random() < 0.4 else []), "bar-prefix"
+    if k < 0.9:
+        p = rng.choice(pre)
+        return [mi("P"), mo("("), S(), mo("|"), mo(p), S(), mo(")")] + ([mo("="), mn("0.5")] if rng.random() < 0.5 else []), "given-prefix"
+    o1, o2 = rng.sample(list(MATCH), 2)
+    return [mo(o1), v(), mo(rng.choice(common)), mo(o2), v(), mo(rng.choice(common)), v(), mo(MATCH[o2]), mo(MATCH[o1]), mo(rng.choice(common)), v()], "nested-fences"
+
+
+def fence_problems(root):
+    """every close fence is the last child of a row whose first child is its open fence (inputs here have balanced fences)"""
+    out = []
+    close = {v: k for k, v in MATCH.items()}
+    for row in root.iter():
+        if mml.local(row.tag) not in ("mrow", "math", "msqrt", "mtd"):
+            continue
+        kids = list(row)
+        for i, k in enumerate(kids):
+            if mml.local(k.tag) != "mo":
+                continue
+            t = k.text or ""
+            if t in close:
+                first = kids[0]
+                if i != len(kids) - 1 or mml.local(first.tag) != "mo" or (first.text or "") != close[t]:
+                    out.append(("unmatched-fence", "close fence %s is child %d of %d in a row that starts with %r" % (t, i + 1, len(kids), (first.text or mml.local(first.tag)))))
+            elif t in MATCH:
+                last = kids[-1]
+                if i != 0 or mml.local(last.tag) != "mo" or (last.text or "") != MATCH[t]:
+                    out.append(("unmatched-fence", "open fence %s is child %d of %d in a row that ends with %r" % (t, i + 1, len(kids), (last.text or mml.local(last.tag)))))
+    return out
+
+
+def judge_idiom(sess, kids, d):
+    tree = gen.math(*[k.copy() for k in kids])
+    r = sess.call("set_mathml", tree.xml(), timeout=30)
+    if r is None or r["r"] != "ok":
+        return None, "", r
+    try:
+        root = ET.fromstring(r["v"])
+    except ET.ParseError:
+        return None, "", r
+    probs = fence_problems(root) + [p for p in row_problems(root, d, strict=True) if p[0] in ("loose-operand-row", "adjacent-operands", "mixed-priorities")]
+    if probs:
+        return probs[0][0], probs[0][1] + " | " + show(out_tree(root)), r
+    return None, "", r
+
+
+def idiom_shard(spec):
+    st = core.Stats()
+    rng = random.Random(spec["seed"])
+    d = load_dict()
+    seen = set()
+    with core.Session({"TTS": "None"}) as sess:
+        for _ in range(spec["n"]):
+            kids, what = idiom(rng, d)
+            kind, detail, r = judge_idiom(sess, kids, d)
+            st.evaluations += 1
+            if r is None or r["r"] != "ok":
+                st.count("idiom_set_mathml_not_ok")
+                continue
+            st.count("idiom_rows_" + what)
+            st.nontrivial.add(core.h16("idiom" + "".join(k.text or "" for k in kids)))
+            if kind is None:
+                continue
+            st.count("raw_idiom_" + kind)
+            if (kind, what) in seen:
+                continue
+            seen.add((kind, what))
+            small = shrink.shrink_list(kids, lambda ks: len(ks) >= 2 and judge_idiom(sess, ks, d)[0] == kind, budget=80)
+            sig = "%s | idiom:%s | %s" % (kind, what, " ".join("v" if k.tag == "mi" and len(k.text) == 1 else "n" if k.tag == "mn" else (k.text or "") for k in small))
+            st.violations.append(core.violation(kind, sig, {"idiom": [[k.tag, k.text] for k in small]}, "minimal row: %s | %s" % (" ".join(k.text or "" for k in small), judge_idiom(sess, small, d)[1])))
+    return st.to_dict()
+
+
 def replay(witness):
     d = load_dict()
+    if "idiom" in witness:
+        kids = [gen.N(t, text=x) for t, x in witness["idiom"]]
+        with core.Session({"TTS": "None"}) as sess:
+            kind, detail, r = judge_idiom(sess, kids, d)
+            if kind:
+                sig = "%s | idiom:%s | %s" % (kind, witness.get("what", "-"), " ".join("v" if k.tag == "mi" and len(k.text) == 1 else "n" if k.tag == "mn" else (k.text or "") for k in kids))
+                return [core.violation(kind, sig, witness, detail)]
+        return []
     out = []
     with core.Session({"TTS": "None"}) as sess:
         if "tokens" in witness:
@@ -622,6 +738,7 @@ def run(tier, seed):
     results = core.run_shards(shard, specs)
     l1 = [{"seed": core.sub_seed(seed, PROP, "l1", i), "n": 600 if tier == "quick" else 20000} for i in range(nsh)]
     results += core.run_shards(layer1_shard, l1)
+    results += core.run_shards(idiom_shard, [{"seed": core.sub_seed(seed, PROP, "idiom", i), "n": 1500 if tier == "quick" else 60000} for i in range(nsh)])
     stats, errors = core.Stats.merge(results)
     known, fixed_failures, extra_v = core.replay_findings(PROP, replay)
     stats.violations.extend(extra_v)
